@@ -374,3 +374,9 @@ for _p, _req in (("C02", ["supply2_eq_balances2", "run_inv2", "step_inv2", "gene
     PROPS[_p]["lean_modules"] = PROPS[_p]["lean_modules"] + ["Posmint.Props.Denom2"]
     PROPS[_p]["namespaces"] = PROPS[_p]["namespaces"] + ["Posmint.Props.Denom2"]
     PROPS[_p]["required_theorems"] = PROPS[_p]["required_theorems"] + ["Posmint.Props.Denom2." + t for t in _req]
+
+# C14 through the ABCI interface: the chain family's `mon.query` operations (store queries via BaseApp.Query at no height,
+# the latest, remembered earlier and not yet existing heights, with and without proof)
+PROPS["C14"]["t1"] = RM_T1 + [{"family": "chain", "model": "chain", "quick_n": 6000, "thorough_n": 300000, "corpus": "none",
+                               "reset_token": "init", "group_token": "begin"}]
+PROPS["C14"]["rule"] = RM_RULE + "; plus block histories on the real BaseApp (see C02) in which store queries are sent through the ABCI Query interface between blocks"
